@@ -33,6 +33,7 @@ class Seam:
         self.crash_at = []  # pending crash points: [role, 'before'|'after', k]
         self.fired = []
         self.fail_read = None  # (role, file name): the next read-open of that file by that role fails once
+        self.fail_write = None  # [role, skip, torn]: the (skip+1)-th next write / create by that role fails once with ENOSPC (disk full)
         self.separate_hosts = False  # server and client on different machines: neither sees the other's directory
         self.on_event = None  # callback(rec) for property-level observation
         self.installed = False
@@ -52,6 +53,7 @@ class Seam:
         self.crash_at = []
         self.fired = []
         self.fail_read = None
+        self.fail_write = None
         self.separate_hosts = False
         self.on_event = None
         self.events = []
@@ -67,6 +69,7 @@ class Seam:
         self.on_event = None
         self.crash_at = []
         self.fail_read = None
+        self.fail_write = None
         self.separate_hosts = False
 
     # ---- helpers
@@ -145,6 +148,21 @@ class Seam:
             sim.kill(p)
             raise SimCrash(f"before {k} {kind} {rel}")
         sim.role_k[p.role] = k + 1
+        fw = self.fail_write
+        if fw is not None and fw[0] == p.role and (kind == "write" or "creat" in kind or kind == "mkdir"):
+            if fw[1] > 0:
+                fw[1] -= 1
+            else:
+                # injected system-call failure: the disk is full for this one call (the process survives and sees OSError)
+                self.fail_write = None
+                sim.count("write_error")
+                sim.log.append(("write_error", p.role, kind))
+                rec["enospc"] = True
+                self._record(rec, applied=False)
+                import errno
+                e = OSError(errno.ENOSPC, "No space left on device (injected)", os.fspath(path))
+                e.sim_torn = bool(fw[2]) if len(fw) > 2 else False
+                raise e
         rec["_p"] = p
         return rec
 
@@ -268,7 +286,12 @@ class Seam:
         def s_write(fd, data):
             path = seam.fds.get(fd)
             if path is not None and seam.enabled:
-                rec = seam.event("write", path, len(data))
+                try:
+                    rec = seam.event("write", path, len(data))
+                except OSError as e:
+                    if getattr(e, "sim_torn", False) and len(data) > 1:
+                        _REAL_OS.write(fd, bytes(data[:len(data) // 2]))  # part of the data made it to the disk before it was full
+                    raise
                 n = _REAL_OS.write(fd, data)
                 seam.after(rec)
                 return n
